@@ -7,7 +7,16 @@ func init() { register("C13", checkC13) }
 // C13 — AOL counters and listings equal the real contents.
 func checkC13(p *Prog, r *Report) {
 	if csp := p.SSAPkg(Rel(compkeyPkg)); csp != nil {
-		checkCompkeyEncoder(p, r, func(rule, rest string) string { return rule + ":C13:" + rest }, csp)
+		kp13 := func(rule, rest string) string { return rule + ":C13:" + rest }
+		checkCompkeyEncoder(p, r, kp13, csp)
+		if dec := csp.Func("Decode"); dec != nil {
+			checkDecoderShape(p, r, kp13, dec)
+		}
+		if ck := p.Iface(Rel(compkeyPkg), "CompositeKey"); ck != nil {
+			for _, kt := range p.ImplementersOf(ck) {
+				checkTypedKey(p, r, kp13, kt)
+			}
+		}
 	}
 	checkAolExportLoopBounds(p, r, func(rule, rest string) string { return rule + ":C13:" + rest })
 	checkNoDroppedErrors(p, r, "C13", "x/aol/keeper, x/aol/types", func(fn *ssa.Function) bool { return InPkgs(fn, "x/aol/keeper", "x/aol/types") })
